@@ -172,7 +172,9 @@ func c11Boundary(modes []modeT) func(x *X) { return c11BoundaryBuf(modes, 64) }
 
 // c11BoundaryBuf: buf is the configured buffer size on both sides (64 is a size class of the
 // buffer pools; 1000 is not: the pools round it up to 1024, so a buffer's length and capacity differ)
-func c11BoundaryBuf(modes []modeT, buf int) func(x *X) {
+func c11BoundaryBuf(modes []modeT, buf int) func(x *X) { return c11BoundaryBufP("C11", modes, buf) }
+
+func c11BoundaryBufP(kp string, modes []modeT, buf int) func(x *X) {
 	return func(x *X) {
 		m := modes[x.Choose(len(modes))]
 		m.so.bufSize, m.co.bufSize = buf, buf
@@ -191,7 +193,7 @@ func c11BoundaryBuf(modes []modeT, buf int) func(x *X) {
 		c := newUcall(1, flags, size, formCall)
 		c.issue(f.conn)
 		if c.err != nil || !eqBytes(c.reply, c.want()) {
-			x.Fail("C11/reply-wrong-at-return", "call with a %d-byte body: err=%v reply=%x", size, c.err, c.reply)
+			x.Fail(kp+"/reply-wrong-at-return", "call with a %d-byte body: err=%v reply=%x", size, c.err, c.reply)
 			return
 		}
 		sum := digest(c.reply)
@@ -202,11 +204,11 @@ func c11BoundaryBuf(modes []modeT, buf int) func(x *X) {
 		f.conn.Ping()
 		vs.Quiesce()
 		if d := digest(c.reply); d != sum {
-			x.Fail("C11/client-data-mutated", "the %d-byte reply of a call with a %d-byte body changed after later calls: %s -> %s (mode %s)", len(c.reply), size, sum, d, m.name)
+			x.Fail(kp+"/client-data-mutated", "the %d-byte reply of a call with a %d-byte body changed after later calls: %s -> %s (mode %s)", len(c.reply), size, sum, d, m.name)
 		}
 		for i, b := range f.w.kept {
 			if d := digest(b); d != f.w.keptSum[i] {
-				x.Fail("C11/handler-args-mutated", "%d argument bytes kept by a handler changed after the handler returned (mode %s)", len(b), m.name)
+				x.Fail(kp+"/handler-args-mutated", "%d argument bytes kept by a handler changed after the handler returned (mode %s)", len(b), m.name)
 			}
 		}
 		x.Outcome("%s size=%d double=%v", m.name, size, double)
@@ -227,7 +229,7 @@ func init() {
 func c11ReusedCall(prop string) func(x *X) {
 	return func(x *X) {
 		m := c11Modes[x.Choose(5)]
-		sizes := [][3]int{{40, 12, 40}, {12, 40, 12}, {30, 30, 30}, {200, 20, 90}, {20, 200, 20}}[x.Choose(5)]
+		sizes := [][3]int{{40, 12, 40}, {12, 40, 12}, {30, 30, 30}, {200, 20, 90}, {20, 200, 20}, {40, 0, 12}, {12, 40, 0}}[x.Choose(7)] // (0: a request and a reply of no bytes at all)
 		f := newFixture(m.so, m.co)
 		done := make(chan *rpc.Call, 1)
 		call := &rpc.Call{ServiceMethod: "Svc.Echo", Done: done}
@@ -240,11 +242,15 @@ func c11ReusedCall(prop string) func(x *X) {
 		for i, n := range sizes {
 			args := mkPayload(byte(i+1), 0, n)
 			k := &kept{want: transform(args)}
+			call.ServiceMethod = "Svc.Echo"
+			if n == 0 {
+				args, k.want, call.ServiceMethod = []byte{}, []byte{}, "Svc.Plain"
+			}
 			call.Args, call.Reply, call.Error = &args, &k.reply, nil
 			f.conn.RoundTrip(call)
 			recvCall(done)
 			if call.Error != nil || !eqBytes(k.reply, k.want) {
-				x.Fail(prop+"/reply-wrong-at-return/reused-call", "round trip %d with a reused Call: err=%v reply %x", i, call.Error, k.reply)
+				x.Fail(prop+"/reply-wrong-at-return/reused-call", "round trip %d (%d argument bytes) of a reused Call completed with err=%v and the reply %x, want %x (sizes %v, mode %s)", i, len(args), call.Error, k.reply, k.want, sizes, m.name)
 				return
 			}
 			k.sum = digest(k.reply)
@@ -265,4 +271,13 @@ func init() {
 	register(&Scenario{Prop: "C11", Name: "c11/frame-boundary-buf1000", Quick: []Bound{{0, 0}}, Thorough: []Bound{{1, 0}}, Body: c11BoundaryBuf(c11Modes[:5], 1000), BudgetQ: 15})
 	register(&Scenario{Prop: "C11", Name: "c11/reused-call", Quick: []Bound{{0, 0}, {1, 0}}, Thorough: []Bound{{2, 0}}, Body: c11ReusedCall("C11"), BudgetQ: 15})
 	register(&Scenario{Prop: "C01", Name: "c01/reused-call", Quick: []Bound{{0, 0}}, Thorough: []Bound{{1, 0}}, Body: c11ReusedCall("C01"), BudgetQ: 15})
+}
+
+func init() {
+	// C12: a buffer size that is not a size class of the pool (100 -> 128, 1000 -> 1024) gives the same results as
+	// one that is: arguments kept by a handler and replies kept by a caller stay what they were, under every header encoder
+	odd := []modeT{basicModes[0], basicModes[5], basicModes[6], basicModes[7], basicModes[1]}
+	register(&Scenario{Prop: "C12", Name: "c12/kept-data-buffer-size-100", Quick: []Bound{{0, 0}}, Thorough: []Bound{{1, 0}}, Body: c11BoundaryBufP("C12", odd, 100), BudgetQ: 15})
+	register(&Scenario{Prop: "C12", Name: "c12/kept-data-buffer-size-1000", Quick: []Bound{{0, 0}}, Thorough: []Bound{{1, 0}}, Body: c11BoundaryBufP("C12", odd, 1000), BudgetQ: 15})
+	register(&Scenario{Prop: "C11", Name: "c11/frame-boundary-buf100-encoders", Quick: []Bound{{0, 0}}, Thorough: []Bound{{1, 0}}, Body: c11BoundaryBufP("C11", odd, 100), BudgetQ: 15})
 }
